@@ -305,11 +305,19 @@ def spec_check(cfg, r, inject):
             if readies[j] != 1:
                 return 'job %d was accepted but %d results were sent' % (
                     j, readies[j])
-        if synack:
-            # refused jobs do not count toward the quota
-            if quota is not None and executed < min(
-                    quota, len([j for j in acks if j not in refused])):
-                return 'quota consumed by refused jobs'
+        # reference: which of the scripted tasks run, in order
+        want, n = [], 0
+        for k, name in enumerate(cfg['tasks']):
+            if quota is not None and n >= quota:
+                break
+            if synack and k < len(syn) and syn[k] == 'nack':
+                continue                 # refused: not run, not counted
+            want.append(10 + k)
+            n += 1
+        if cfg.get('end', 'sentinel') != 'event' and ran != want:
+            return ('worker executed jobs %r, the reference worker (quota '
+                    '%r, handshake answers %r) executes %r' % (
+                        ran, quota, list(syn), want))
     return None
 
 
